@@ -27,6 +27,8 @@ type PoolSc struct {
 	Sched  []int       `json:"sched,omitempty"`
 	// Barrier > 0: the first Barrier tasks of round 0 wait until all of them run simultaneously.
 	Barrier int `json:"barrier,omitempty"`
+	// Waiters >= 2: a second goroutine calls Wait concurrently with the first one in every round.
+	Waiters int `json:"waiters,omitempty"`
 	// Late > 0: in every round a second goroutine submits Late more (un-gated) tasks while the
 	// waiter is already inside Wait and an earlier task is still running.
 	Late int `json:"late,omitempty"`
@@ -61,6 +63,7 @@ type poolObs struct {
 	RoundsDone   int
 	LateLost      string
 	LateSubmitted int32
+	Wait2Early string // the same for a second, concurrent waiter (written by that goroutine)
 	// APIPanic: Submit / Wait / Close panicked although the pool was used as documented
 	APIPanic string
 }
@@ -159,6 +162,27 @@ func runPool(sc *PoolSc) *poolObs {
 			close(waitReturned)
 		}()
 		roundEnd := roundFirst + roundTasks
+		if sc.Waiters >= 2 {
+			// a second, concurrent Wait: it too may only return once the round's tasks are done
+			lateWG.Add(1)
+			go func(ri, lo, hi int) {
+				defer lateWG.Done()
+				subWG.Wait()
+				if p, _ := recoverCall(pool.Wait); p {
+					return
+				}
+				for t := lo; t < hi; t++ {
+					if atomic.LoadInt32(&doneFlag[t]) == 0 {
+						mu.Lock()
+						if obs.Wait2Early == "" {
+							obs.Wait2Early = fmt.Sprintf("round %d: a second, concurrent Wait returned while task %d, submitted before it was called, had not finished", ri, t)
+						}
+						mu.Unlock()
+						return
+					}
+				}
+			}(ri, roundFirst, roundEnd)
+		}
 		lateStarted := false
 		qpRetried := 0
 		for {
@@ -307,6 +331,9 @@ func judgePool(prop string, sc *PoolSc, obs *poolObs, fail string) Verdict {
 		if obs.WaitEarly != "" {
 			return bad(prop+":wait-early", "%s", obs.WaitEarly)
 		}
+		if obs.Wait2Early != "" {
+			return bad(prop+":wait-early", "%s", obs.Wait2Early)
+		}
 		for t, c := range obs.Counts {
 			if c != 1 {
 				return bad(prop+":exactly-once", "task %d executed %d times (pool size %d, %d tasks)", t, c, sc.Size, len(obs.Counts))
@@ -382,6 +409,9 @@ func genPool(maxTasks int) func(rt *rapid.T) PoolSc {
 		p.Gated = rapid.Bool().Draw(rt, "gated")
 		if p.Gated && rapid.Bool().Draw(rt, "late") {
 			p.Late = rapid.IntRange(1, 5).Draw(rt, "nlate")
+		}
+		if rapid.IntRange(0, 3).Draw(rt, "waiters") == 0 {
+			p.Waiters = 2
 		}
 		if p.Gated {
 			ns := rapid.IntRange(0, 60).Draw(rt, "nsched")
